@@ -484,6 +484,9 @@ def rand_stream(rng):
             b = rng.choice(bases)
             name = variant(rng, b) if rng.random() < 0.7 else b
             dur = rng.choice(durs) if rng.random() < 0.6 else F(rng.randint(1, 4000), 4)
+            if rng.random() < 0.05:
+                # a kernel of about a second: 21 bits in front of the binary point and 4 behind it (exact in a double)
+                dur = F(rng.randint(900_000 * 16, 1_300_000 * 16) | 1, 16)
             evs.append(K(name, pid, t, dur))
         elif x < 0.9:
             evs.append(K(rng.choice(bases).replace(EXEC, "Cmpt Prep"), pid, t, F(rng.randint(1, 40), 4)))
